@@ -166,4 +166,84 @@ class Shapes(object):
         return run(case, 'C08|file-shapes')
 
 
-FAMILIES = [Graphs(), Suppliers(), Shapes()]
+
+class TwoDirectories(object):
+    case_timeout = 30
+    name = 'two-directories'
+    describe = ('two REAL FileReader sources: COMMON-MIB is held by the first directory under a regular file name (4 variants) and by '
+                'the second under an odd name listed in its .index (or a regular one); AUX-MIB only by the second; request orders '
+                'x who imports whom x one or two compile() calls on the same readers: the text compiled for COMMON-MIB is the first '
+                'directory\'s')
+
+    def blocks(self, tier):
+        return [{'f1': f} for f in ('COMMON-MIB', 'COMMON-MIB.txt', 'common-mib.mib', 'COMMON-MIB.my')]
+
+    def cases(self, block, tier):
+        for second in ('index', 'regular'):
+            for plan in (['AUX-MIB', 'COMMON-MIB'], ['COMMON-MIB', 'AUX-MIB'], ['USER-MIB'], [['AUX-MIB'], ['COMMON-MIB']],
+                         [['COMMON-MIB'], ['COMMON-MIB']]):
+                yield {'f1': block['f1'], 'second': second, 'plan': plan}
+
+    def run_case(self, case):
+        import json
+        import os
+        import shutil
+        import tempfile
+        from mc import env
+        from pysmi.reader.localfile import FileReader
+
+        def mod(name, arc, imports=''):
+            return ('%s DEFINITIONS ::= BEGIN\nIMPORTS enterprises FROM SNMPv2-SMI%s;\n%sRoot OBJECT IDENTIFIER ::= { enterprises %d }\nEND\n'
+                    % (name, imports, name.split('-')[0].lower(), arc))
+        base = os.environ.get('VERIF_TMP') or ('/dev/shm' if os.path.isdir('/dev/shm') else None)
+        root = tempfile.mkdtemp(prefix='mcC08', dir=base)
+        try:
+            d1, d2 = os.path.join(root, 'first'), os.path.join(root, 'second')
+            os.mkdir(d1)
+            os.mkdir(d2)
+            for b in env.BASE_NAMES:
+                with open(os.path.join(d1, b), 'w') as f:
+                    f.write(env.base_text(b))
+            with open(os.path.join(d1, case['f1']), 'w') as f:
+                f.write(mod('COMMON-MIB', 1000))
+            if case['second'] == 'index':
+                with open(os.path.join(d2, 'common-v2.dat'), 'w') as f:
+                    f.write(mod('COMMON-MIB', 2000))
+                with open(os.path.join(d2, '.index'), 'w') as f:
+                    f.write('COMMON-MIB common-v2.dat\n')
+            else:
+                with open(os.path.join(d2, 'COMMON-MIB.txt'), 'w') as f:
+                    f.write(mod('COMMON-MIB', 2000))
+            with open(os.path.join(d2, 'AUX-MIB.txt'), 'w') as f:
+                f.write(mod('AUX-MIB', 3000))
+            with open(os.path.join(d2, 'USER-MIB.txt'), 'w') as f:
+                f.write(mod('USER-MIB', 4000, ' auxRoot FROM AUX-MIB commonRoot FROM COMMON-MIB'))
+            w = env.CaptureWriter()
+            comp = env.MibCompiler(env.fresh_parser('smiV2'), env.make_codegen('json'), w)
+            comp.addSources(FileReader(d1), FileReader(d2))
+            comp.addSearchers(env.StubSearcher(*env.BASE_NAMES))
+            calls = case['plan'] if isinstance(case['plan'][0], list) else [case['plan']]
+            vs = []
+            sig = 'C08|two-directories|second-holds-it-%s' % ('under-an-indexed-name' if case['second'] == 'index' else 'regularly')
+            out = []
+            for n, req in enumerate(calls):
+                del w.written[:]
+                res = comp.compile(*req, rebuild=True)
+                docs = dict((name, json.loads(data)) for name, data, _ in w.written)
+                out.append(sorted((k, str(v)) for k, v in res.items()))
+                if 'COMMON-MIB' not in req and 'USER-MIB' not in req:
+                    continue
+                if res.get('COMMON-MIB') != 'compiled' or 'COMMON-MIB' not in docs:
+                    vs.append(('%s|common-not-compiled|call-%d' % (sig, n + 1), repr(out[-1])))
+                    continue
+                got = docs['COMMON-MIB'].get('commonRoot', {}).get('oid')
+                if got != '1.3.6.1.4.1.1000':
+                    vs.append(('%s|text-of-a-later-source-compiled|call-%d' % (sig, n + 1),
+                               'commonRoot is %r, the first source says 1.3.6.1.4.1.1000 (file %s)' % (got, case['f1'])))
+                if not str(getattr(res['COMMON-MIB'], 'path', '')).startswith('file://' + d1):
+                    vs.append(('%s|path-names-a-later-source|call-%d' % (sig, n + 1), repr(getattr(res['COMMON-MIB'], 'path', None))))
+            return repr(out), vs, len(calls)
+        finally:
+            shutil.rmtree(root, ignore_errors=True)
+
+FAMILIES = [Graphs(), Suppliers(), Shapes(), TwoDirectories()]
